@@ -529,6 +529,12 @@ def run(ck):
     # ---------------------------------------------------------------- HEX / SREC text model (Model/HexFmt.lean)
     hexfmt_model(ck, drv, scratch)
 
+    # ---------------------------------------------------------------- HEX / S19 of ARBITRARY trees: bincopy's overwrite path (Model/HexFmtOw.lean)
+    hexfmt_trees(ck, drv, scratch)
+
+    # ---------------------------------------------------------------- remaining tree operations (Model/BinImageOps.lean)
+    tree_ops(ck, drv)
+
 
 def config_path(ck, drv, scratch):
     """BinaryImage.load_from_config / `nxpimage utils binary-image merge`: the tree described by a configuration is the tree the API builds."""
@@ -746,6 +752,292 @@ def hexfmt_model(ck, drv, scratch):
             if real in ("accepted", "refused"):
                 ans = "accepted" if ans.startswith("ok:") else ("refused" if ans.startswith("E:") else ans)
             sh.compare(inp, real, ans)
+
+
+def find_by_address(t, a, strict):
+    """independent reading of get_image_by_absolute_address: sub-images first, in order, each with the address relative to this image's origin;
+    strict=True is the documented meaning ('the image that contains the address': end address excluded), strict=False accepts the end address as well"""
+    for c in t.sub_images:
+        r = find_by_address(c, a - t.offset, strict)
+        if r is not None:
+            return r
+    end = t.offset + len(t)
+    if a < t.offset or (a >= end if strict else a > end):
+        return None
+    return t
+
+
+def path_of(root, node):
+    if root is node:
+        return []
+    for i, c in enumerate(root.sub_images):
+        p = path_of(c, node)
+        if p is not None:
+            return [i] + p
+    return None
+
+
+def tree_ops(ck, drv):
+    from spsdk.exceptions import SPSDKValueError
+    from spsdk.utils.images import BinaryImage
+    from spsdk.utils.misc import BinaryPattern
+    rng = ck.rng
+    so = ck.stream("tree_ops", "random image trees (valid and invalid geometry, random root offset): join_images() (length, no sub-images left, export unchanged), "
+                   "get_image_by_absolute_address() at every node's start / last / end address, the addresses around them and random ones (image found = path, absolute "
+                   "address, length), update_offsets() (own offset, child offsets, length; absolute addresses kept), find_sub_image() with duplicate names, and trees "
+                   "with the 'rand' pattern (length / validation / export length / data bytes as with any other pattern); compared with the Lean model "
+                   "(Model/BinImageOps.lean) and with independent oracles; non-trivial = distinct case")
+    reqs = []
+    for k in range(ck.budget(260, 5000)):
+        t = gen_tree(rng, 0, rng.choice([0.0, 0.0, 0.15, 0.5]))
+        base = rng.choice([0, 0, 4, 0x100, 0x0800_0000])
+        try:
+            img = build(t)
+        except Exception:  # noqa: BLE001
+            continue
+        img.offset = base
+        if pyres(len, img)[0] != "ok":
+            continue
+        toks = " ".join(tokens(img))
+        valid = pyres(img.validate)[0] == "ok"
+        # ---- get_image_by_absolute_address
+        nodes = []
+
+        def walk(n, a):
+            nodes.append((n, a + n.offset))
+            for c in n.sub_images:
+                walk(c, a + n.offset)
+        walk(img, 0)
+        addrs = set()
+        for n, a in rng.sample(nodes, min(len(nodes), 4)):
+            addrs.update([a, a + len(n), max(0, a + len(n) - 1), a + len(n) + 1, max(0, a - 1)])
+        addrs.add(rng.randrange(0, base + len(img) + 3))
+        for a in sorted(addrs)[:14]:
+            inp = ("getaddr", a, toks)
+            so.note(inp, cls="getaddr:" + ("valid" if valid else "invalid"))
+            r = pyres(img.get_image_by_absolute_address, a)
+            want = find_by_address(img, a, True)
+            lax = find_by_address(img, a, False)
+            fnd = "C16-address-one-past-end" if want is not lax else None   # the address is the end address of the image a lax search stops at
+            if r[0] == "ok":
+                node = r[1]
+                pth = path_of(img, node)
+                so.expect(pth is not None, inp, "get_image_by_absolute_address returned an object that is not in the tree")
+                if pth is None:
+                    continue
+                ab = node.absolute_address
+                so.expect(node is want, inp, "get_image_by_absolute_address does not return the (first, deepest) image that contains the address",
+                          (pth, ab, len(node)), None if want is None else (path_of(img, want), want.absolute_address, len(want)), finding=fnd)
+                reqs.append((inp, f"getaddr {a} {toks}", "ok:" + (",".join(map(str, pth)) if pth else "-") + f" {ab} {len(node)}"))
+            else:
+                so.expect(r[0] == "E:spsdk" and want is None, inp, "get_image_by_absolute_address refuses an address some image contains (or raises a non-SPSDK error)", r, finding=fnd)
+                reqs.append((inp, f"getaddr {a} {toks}", r[0]))
+        # ---- update_offsets (on a fresh copy)
+        im2 = build(t)
+        im2.offset = base
+        before = [(c, im2.offset + c.offset, pyres(len, c)) for c in im2.sub_images]
+        inp = ("updoff", toks)
+        so.note(inp, cls="updoff:" + ("children" if im2.sub_images else "leaf"))
+        r = pyres(im2.update_offsets)
+        if r[0] == "ok":
+            so.expect(bool(before) and all(im2.offset + c.offset == ab and pyres(len, c) == ln for c, ab, ln in before) and min(c.offset for c in im2.sub_images) == 0,
+                      inp, "update_offsets moved a sub-image (absolute address or length changed) or did not bring the least offset to 0")
+            reqs.append((inp, f"updoff {toks}", canon(pyres(lambda: f"{im2.offset} " + ",".join(str(c.offset) for c in im2.sub_images) + f" {len(im2)}"))))
+        else:
+            so.expect(not before and r[0] == "E:other", inp, "update_offsets raised on an image with sub-images", r)
+            reqs.append((inp, f"updoff {toks}", r[0]))
+        # ---- join_images (on a fresh copy)
+        im3 = build(t)
+        im3.offset = base
+        ex0 = pyres(im3.export)
+        ln0 = pyres(len, im3)
+        inp = ("join", toks)
+        so.note(inp, cls="join:" + ("valid" if valid else "invalid"))
+        r = pyres(im3.join_images)
+        if r[0] == "ok":
+            ex1 = pyres(im3.export)
+            if valid:
+                so.expect(ex0[0] == "ok" and ex1 == ex0 and not im3.sub_images and pyres(len, im3) == ln0 and pyres(im3.validate)[0] == "ok", inp,
+                          "join_images changed the exported bytes / the length of a valid tree, left sub-images or made it invalid")
+            reqs.append((inp, f"join {toks}", canon(pyres(lambda: f"{len(im3)} {len(im3.sub_images)} " + (hexs(ex1[1]) if ex1[0] == "ok" else ex1[0])))))
+        else:
+            so.expect(not valid and ex0[0] == r[0], inp, "join_images raised although export() works (or on a valid tree)", r, ex0)
+            reqs.append((inp, f"join {toks}", r[0]))
+        # ---- find_sub_image with duplicate names (oracle only; the model is `findSub` over the list of names)
+        if img.sub_images:
+            names = [rng.choice(["a", "b", "c"]) for _ in img.sub_images]
+            for c, nm in zip(img.sub_images, names):
+                c.name = nm
+            for nm in ("a", "b", "c", "zz"):
+                r = pyres(img.find_sub_image, nm)
+                so.note(("find", nm, names), cls="find")
+                if nm in names:
+                    so.expect(r[0] == "ok" and r[1] is img.sub_images[names.index(nm)], ("find", nm, names), "find_sub_image does not return the first sub-image with that name")
+                else:
+                    so.expect(r[0] == "E:spsdk", ("find", nm, names), "find_sub_image does not raise SPSDKValueError for an unknown name", r[0])
+        # ---- the 'rand' pattern: same tree, every pattern replaced by rand
+        if valid and k % 3 == 0:
+            def rand_copy(tt):
+                d = dict(tt)
+                d["pattern"] = "rand" if tt["pattern"] else None
+                d["children"] = [rand_copy(c) for c in tt["children"]]
+                return d
+            ir = pyres(build, rand_copy(t))
+            inp = ("rand", toks)
+            so.note(inp, cls="rand")
+            if ir[0] != "ok":
+                so.expect(False, inp, "building the tree with the rand pattern raised", ir)
+                continue
+            ir = ir[1]
+            ir.offset = base
+            e1, e2, e0 = pyres(ir.export), pyres(ir.export), pyres(img.export)
+            ok = pyres(len, ir) == pyres(len, img) and pyres(ir.validate)[0] == "ok" and e1[0] == e2[0] == e0[0] == "ok" and len(e1[1]) == len(e0[1]) == len(e2[1])
+            so.expect(ok, inp, "with the rand pattern length / validation / export length differ from the same tree with deterministic patterns")
+            if ok:
+                mem = {}
+                paint_data_only(ir, 0, mem)
+                bad = [a for a, b in mem.items() if a - base < len(e1[1]) and (e1[1][a - base] != b or e0[1][a - base] != b)]
+                so.expect(not bad, inp, "with the rand pattern a byte that belongs to a binary (not covered by a later sub-image) changed", bad[:4])
+    if drv is not None:
+        for (inp, line, real), ans in zip(reqs, drv.batch([r[1] for r in reqs])):
+            so.compare(inp, real, ans)
+
+
+def paint_data_only(img, base, mem):
+    """absolute address -> byte for every byte that comes from a binary; a sub-image covers (removes or overwrites) what lies under its whole extent"""
+    a = base + img.offset
+    for k, b in enumerate(img.binary or b""):
+        mem[a + k] = b
+    for c in img.sub_images:
+        for k in range(len(c)):
+            mem.pop(a + c.offset + k, None)
+        paint_data_only(c, a, mem)
+
+
+def paint(img, base, mem):
+    """independent statement of what HEX / S19 of a tree store: node by node (parents before children, children in order) the fill pattern over
+    len(node), then the own binary, at the absolute address; later writes win.  mem: dict address -> byte"""
+    a = base + img.offset
+    if img.pattern is not None:
+        for k, b in enumerate(ref_block(img.pattern, len(img))):
+            mem[a + k] = b
+    for k, b in enumerate(img.binary or b""):
+        mem[a + k] = b
+    for c in img.sub_images:
+        paint(c, a, mem)
+
+
+def mem_segments(mem):
+    """dict address -> byte  ->  maximal runs [(addr, bytes)] ascending"""
+    out = []
+    for a in sorted(mem):
+        if out and out[-1][0] + len(out[-1][1]) == a:
+            out[-1][1].append(mem[a])
+        else:
+            out.append((a, bytearray([mem[a]])))
+    return [(a, bytes(d)) for a, d in out]
+
+
+def segs_line(segs):
+    return "ok:" + " ".join(f"{a}:{hexs(d)}" for a, d in segs)
+
+
+def hexfmt_trees(ck, drv, scratch):
+    import bincopy
+    from spsdk.utils.images import BinaryImage
+    rng = ck.rng
+    sw = ck.stream("hexfmt_trees", "bincopy's overwrite path as save_binary_image uses it, vs the Lean model (Model/HexFmtOw.lean): (i) random sequences of 1-9 "
+                   "add_binary(.., overwrite=True) calls whose data touch / overlap / contain / precede each other (window of 0..200 bytes at bases incl. 0xFFxx, "
+                   "0xFFFFFFxx): the BinFile's segments; (ii) random image trees - valid AND overlapping / sticking-out ones, patterns, explicit sizes, alignment, "
+                   "nesting, zero-length nodes - at random base addresses: the BinFile's segments and the HEX and S19 TEXT save_binary_image writes, byte for byte; "
+                   "oracle: segments / loaded bytes = 'last write wins' memory painted independently; non-trivial = distinct case")
+    reqs = []
+    # (i) write sequences
+    for k in range(ck.budget(400, 6000)):
+        base = rng.choice([0, 0, 0x10, 0xFF80, 0xFFFF, 0x1_0000, 0x2000_0000, 0xFFFF_FF00, rng.getrandbits(31)])
+        ws = []
+        for _ in range(rng.randint(1, 9)):
+            ln = rng.choice([1, 1, 2, 3, 8, 16, 32, 33, rng.randrange(1, 80)])
+            if ws and rng.random() < 0.5:
+                pa, pd = rng.choice(ws)           # relative to an earlier write: touching behind / before, overlapping, inside, around, same start
+                off = rng.choice([pa + len(pd), pa - ln, pa + len(pd) - 1, pa - ln + 1, pa, pa + 1, pa - 1, pa + len(pd) // 2])
+                off = max(base, off)
+            else:
+                off = base + rng.randrange(0, 200)
+            if off + ln > 0x1_0000_0000:
+                off = 0x1_0000_0000 - ln
+            ws.append((off, bytes(rng.getrandbits(8) for _ in range(ln))))
+        inp = [(a, hexs(d)) for a, d in ws]
+        sw.note(("writes", inp), cls="writes:%d" % min(len(ws), 4))
+
+        def real_writes(ws=ws):
+            bf = bincopy.BinFile()
+            for a, d in ws:
+                bf.add_binary(d, address=a, overwrite=True)
+            return [(sg.address, bytes(sg.data)) for sg in bf.segments]
+        rw = pyres(real_writes)
+        mem = {}
+        for a, d in ws:
+            for j, b in enumerate(d):
+                mem[a + j] = b
+        if rw[0] != "ok":
+            sw.expect(False, ("writes", inp), "bincopy add_binary(overwrite=True) raised", rw)
+            reqs.append(((("writes", inp)), "ow_segs " + " ".join(f"{a}:{hexs(d)}" for a, d in ws), rw[0]))
+            continue
+        sw.expect(rw[1] == mem_segments(mem), ("writes", inp), "overwriting writes do not leave 'last write wins' memory as maximal ascending segments",
+                  segs_line(rw[1])[:300], segs_line(mem_segments(mem))[:300])
+        reqs.append(((("writes", inp)), "ow_segs " + " ".join(f"{a}:{hexs(d)}" for a, d in ws), segs_line(rw[1])))
+    # (ii) whole trees
+    done = 0
+    for k in range(ck.budget(160, 2500)):
+        t = gen_tree(rng, 0, rng.choice([0.0, 0.15, 0.5]))
+        try:
+            img = build(t)
+        except Exception:  # noqa: BLE001
+            continue
+        mem0 = {}
+        pr = pyres(paint, img, 0, mem0)
+        if pr[0] != "ok":
+            continue   # len() raised: reported by the `trees` stream
+        top = max(mem0) + 1 if mem0 else 0
+        base = rng.choice([0, 0x10, 0xFFF0, 0xFFFF, 0x1_0000, 0x0800_0000, 0x2000_1000, 0xFFFF_0000, rng.getrandbits(32)])
+        if base + top > 0x1_0000_0000:
+            base = 0x1_0000_0000 - top
+        img.offset = base
+        ex = rng.choice([None, None, 0, 0x2000_0401, rng.getrandbits(32)])
+        img.execution_start_address = ex
+        toks = " ".join(tokens(img))
+        etok = "N" if ex is None else str(ex)
+        mem = {a + base: b for a, b in mem0.items()}
+        valid = pyres(img.validate)[0] == "ok"
+        done += 1
+        for fmt, op in (("HEX", "ihex"), ("S19", "srec")):
+            inp = (fmt, etok, toks)
+            sw.note(inp, cls=f"tree:{fmt}:" + ("valid" if valid else "invalid-geometry") + (":empty" if not mem else ""))
+            path = os.path.join(scratch, f"ht_{k}.{fmt.lower()}")
+            sv = pyres(img.save_binary_image, path, fmt)
+            if sv[0] != "ok":
+                sw.expect(False, inp, "save_binary_image raised", sv)
+                reqs.append(((inp, "text"), f"save_{op} {etok} {toks}", sv[0]))
+                continue
+            with open(path, "rb") as fh:
+                raw = fh.read()
+            reqs.append(((inp, "text"), f"save_{op} {etok} {toks}", "ok:" + raw.hex()))
+            if mem:
+                ld = pyres(BinaryImage.load_binary_image, path)
+                if ld[0] != "ok":
+                    sw.expect(False, inp, "load_binary_image does not load the HEX/S19 file SPSDK wrote for this tree", ld)
+                else:
+                    got = pyres(lambda im=ld[1]: [(c.absolute_address, bytes(c.binary or b"")) for c in im.sub_images])
+                    sw.expect(got[0] == "ok" and got[1] == mem_segments(mem), inp,
+                              "the file does not hold, at every address, the last of the tree's writes (pattern, binary, sub-images in order) covering it",
+                              None if got[0] != "ok" else segs_line(got[1])[:300], segs_line(mem_segments(mem))[:300])
+                    sw.expect(ld[1].execution_start_address == ex, inp, "execution start address not preserved", ld[1].execution_start_address, ex)
+            os.unlink(path)
+        reqs.append((("segs", toks), f"save_segs {toks}", segs_line(mem_segments(mem))))
+    if drv is not None:
+        for (inp, line, real), ans in zip(reqs, drv.batch([r[1] for r in reqs])):
+            sw.compare(inp, real, ans)
 
 
 def replay(ck, data):
